@@ -68,7 +68,7 @@ func (fc *FnCtx) instr(in ssa.Instruction, idx int) {
 	case *ssa.MakeInterface:
 		fc.setVal(x, fc.makeIface(x.X.Type(), fc.val(x.X)))
 	case *ssa.MakeMap:
-		fc.setVal(x, fc.allocRef(x.Name(), x.Type()))
+		fc.makeMap(x)
 	case *ssa.MakeSlice:
 		fc.doMakeSlice(x)
 	case *ssa.Next:
@@ -102,6 +102,7 @@ func (fc *FnCtx) instr(in ssa.Instruction, idx int) {
 		m := fc.val(x.Map).S()
 		fc.oblige("nil", "map", fmt.Sprintf("(not (= %s 0))", m), x.Pos(), nil)
 		fc.mapInvCheck(x)
+		fc.mapUpdate(x)
 	case *ssa.Panic:
 		if fc.con == nil || !fc.con.MayPanic {
 			fc.oblige("unreach", "panic", "false", x.Pos(), nil)
@@ -718,10 +719,7 @@ func (fc *FnCtx) doLookup(x *ssa.Lookup) {
 		fc.assert(rangeAssume(x.Type(), fc.vals[x].S()))
 		return
 	}
-	// map lookup: abstract (any value of the right type; map value invariants are assumed, see mapinv)
-	r := fc.freshVal(x.Name(), x.Type())
-	fc.setVal(x, r)
-	fc.mapInvAssume(x)
+	fc.mapLookup(x)
 }
 
 func (fc *FnCtx) doSlice(x *ssa.Slice) {
